@@ -465,3 +465,25 @@ def first_difference(rust, model, rtol, adjudicate=None, lenient=None):
         if not items_equal(a, b, rtol):
             return i
     return None
+
+
+def difference_kind(rust, model, i):
+    """'structural' when the observations of instruction i differ in panics, item kinds, naturals (dimensions,
+    flags, counts) or lengths; 'value' when only scalar values differ"""
+    a = rust[i] if i < len(rust) else "missing"
+    b = model[i] if i < len(model) else "missing"
+    if isinstance(a, str) or isinstance(b, str) or len(a) != len(b):
+        return "structural"
+    for x, y in zip(a, b):
+        if x[0] != y[0] or list(x[1]) != list(y[1]) or len(x[2]) != len(y[2]):
+            return "structural"
+    return "value"
+
+
+def differing_value_kinds(rust, model, i):
+    """kinds of the items of instruction i whose scalar values differ (for a 'value' difference)"""
+    a = rust[i] if i < len(rust) else []
+    b = model[i] if i < len(model) else []
+    if isinstance(a, str) or isinstance(b, str):
+        return set()
+    return set(x[0] for x, y in zip(a, b) if list(x[2]) != list(y[2]))
